@@ -1238,9 +1238,46 @@ mod v_socket_dns {
         c >= b'a' && c <= b'z'
     }
 
-    // @harness props=C19 cfg=KN tier=q to=900 mem=6 unwind=12 opts=nomem covers=6 funcs=dns::Socket::start_query;dns::Socket::start_query_raw;dns::Socket::get_query_result;dns::Socket::cancel_query;dns::Socket::find_free_query bounds=socket_with_2_query_slots,_slot_0_Pending/Completed(1..2_addresses)/Failed,_slot_1_free_or_taken;_new_name_of_0..=6_symbolic_bytes_from_[a-z.]
+    struct ApiOut {
+        started: bool,
+        invalid_seen: bool,
+        nofree_seen: bool,
+        which: u8,
+        st: u8,
+        two: bool,
+    }
+
+    // @harness props=C19 cfg=KN tier=q to=900 mem=6 unwind=10 opts=nomem covers=3 funcs=dns::Socket::start_query;dns::Socket::start_query_raw;dns::Socket::find_free_query bounds=socket_with_2_query_slots,_slot_0_Pending/Completed(1..2_addresses)/Failed,_slot_1_free_or_taken;_new_name_of_0..=4_symbolic_bytes_from_[a-z.]
     #[kani::proof]
-    pub(crate) fn dns_api_step() {
+    pub(crate) fn dns_api_start() {
+        let o = api_step::<4>(0);
+        kani::cover!(o.started, "second query started");
+        kani::cover!(o.invalid_seen, "name with an empty label rejected");
+        kani::cover!(o.nofree_seen, "full socket refused a query");
+    }
+
+    // measured alone (together with the result/cancel cases): 423 s, 5.6 GB
+    // @harness props=C19 cfg=KN tier=t to=1800 mem=8 unwind=12 opts=nomem covers=3 funcs=dns::Socket::start_query;dns::Socket::start_query_raw;dns::Socket::find_free_query bounds=as_dns_api_start_with_a_new_name_of_0..=6_symbolic_bytes_from_[a-z.]_(includes_"local")
+    #[kani::proof]
+    pub(crate) fn dns_api_start6() {
+        let o = api_step::<6>(0);
+        kani::cover!(o.started, "second query started");
+        kani::cover!(o.invalid_seen, "name with an empty label rejected");
+        kani::cover!(o.nofree_seen, "full socket refused a query");
+    }
+
+    // @harness props=C19 cfg=KN tier=q to=900 mem=4 unwind=10 opts=nomem covers=3 funcs=dns::Socket::get_query_result;dns::Socket::cancel_query;dns::Socket::start_query;dns::Socket::find_free_query bounds=socket_with_2_query_slots,_slot_0_Pending/Completed(1..2_addresses)/Failed;_get_query_result_or_cancel_query,_then_the_slot_is_reused
+    #[kani::proof]
+    pub(crate) fn dns_api_result() {
+        let which: u8 = kani::any();
+        kani::assume(which == 1 || which == 2);
+        let o = api_step::<4>(which);
+        kani::cover!(o.which == 1 && o.st == 1 && o.two, "two addresses handed out");
+        kani::cover!(o.which == 1 && o.st == 0, "result not ready");
+        kani::cover!(o.which == 2 && o.st == 0, "pending query cancelled");
+    }
+
+    fn api_step<const L: usize>(which: u8) -> ApiOut {
         dns_env!(dev, iface, cx, now);
         let mut slots: [Option<DnsQuery>; 2 + PAD] = [None, None, None, None];
         let servers = [IpAddress::Ipv4(S4)];
@@ -1267,8 +1304,6 @@ mod v_socket_dns {
         } else if st == 2 {
             s.queries[0].as_mut().unwrap().state = State::Failure;
         }
-        let which: u8 = kani::any();
-        kani::assume(which <= 2);
         let mut started = false;
         let mut invalid_seen = false;
         let mut nofree_seen = false;
@@ -1279,7 +1314,6 @@ mod v_socket_dns {
                 let h1 = s.start_query(cx, "x.y", Type::Aaaa).unwrap();
                 assert!(h1.0 == 1, "prop:c19_query_takes_first_free_slot");
             }
-            const L: usize = 6;
             let nb: [u8; L] = kani::any();
             let nl = any_le(L);
             let mut i = 0;
@@ -1393,12 +1427,7 @@ mod v_socket_dns {
             let h = s.start_query(cx, "de.f", Type::A).unwrap();
             assert!(h.0 == 0, "prop:c19_freed_slot_is_reused");
         }
-        kani::cover!(started, "second query started");
-        kani::cover!(invalid_seen, "name with an empty label rejected");
-        kani::cover!(nofree_seen, "full socket refused a query");
-        kani::cover!(which == 1 && st == 1 && two, "two addresses handed out");
-        kani::cover!(which == 1 && st == 0, "result not ready");
-        kani::cover!(which == 2 && st == 0, "pending query cancelled");
+        ApiOut { started, invalid_seen, nofree_seen, which, st, two }
     }
 
     // @harness props=C19 cfg=KN tier=q to=600 mem=6 unwind=70 opts=nomem covers=2 funcs=dns::Socket::start_query;dns::Socket::start_query_raw bounds=concrete_names_around_the_limits:_label_of_63_/_64_bytes,_encoded_name_of_64_/_65_/_67_bytes_with_DNS_MAX_NAME_SIZE=64,_.local_suffix
